@@ -11,7 +11,7 @@
 //    byte-level LLVMFuzzerMutate; LLVMFuzzerCustomCrossOver splices an instance of the other input.
 //
 // Stand-alone use (reproduce one artifact):   fuzz_p21 FILE...      (libFuzzer runs the files once each)
-//   environment C05_STATS=path : on exit append one JSON line {execs, with_instances, working, exceptions}
+//   environment C05_STATS=path : file path.<pid> holds one JSON line {execs, with_instances, working} (rewritten every 128 inputs)
 extern void SchemaInit( class Registry & );
 #include "cleditor/STEPfile.h"
 #include "clstepcore/sdai.h"
@@ -69,16 +69,23 @@ char mempath[512];
 unsigned long nExec = 0, nWithInst = 0, nWorking = 0;
 const char * statsPath = 0;
 
-void writeStats() {
-    unlink( mempath );
+void writeStatsFile() {
     if( !statsPath ) {
         return;
     }
-    FILE * f = fopen( statsPath, "a" );
+    // one file per process, rewritten now and then (a crashing process does not reach atexit)
+    char path[600];
+    snprintf( path, sizeof path, "%s.%d", statsPath, ( int ) getpid() );
+    FILE * f = fopen( path, "w" );
     if( f ) {
         fprintf( f, "{\"execs\":%lu,\"with_instances\":%lu,\"working\":%lu}\n", nExec, nWithInst, nWorking );
         fclose( f );
     }
+}
+
+void writeStats() {
+    unlink( mempath );
+    writeStatsFile();
 }
 
 void fail( const char * what, const uint8_t * data, size_t size ) {
@@ -133,6 +140,9 @@ extern "C" int LLVMFuzzerTestOneInput( const uint8_t * data, size_t size ) {
         }
     }
     ++nExec;
+    if( ( nExec & 127 ) == 0 ) {
+        writeStatsFile();
+    }
     if( working ) {
         ++nWorking;
     }
@@ -633,10 +643,9 @@ bool mutateTokens( std::vector<Tok> & t, Rng & r, size_t room, std::string & out
         default: { // a skeleton file around whatever there is
             std::string body = join( t );
             out = "ISO-10303-21;\nHEADER;\nFILE_DESCRIPTION((''),'2;1');\nFILE_NAME('','',(''),(''),'','','');\nFILE_SCHEMA(('PROBE'));\nENDSEC;\nDATA;\n";
+            out += "#1=LEAF1(1,$,'s');\n";
             if( body.find( "DATA" ) == std::string::npos ) {
                 out += body;
-            } else {
-                out += "#1=LEAF1(1,$,'s');\n";
             }
             out += "\nENDSEC;\nEND-ISO-10303-21;\n";
             return true;
